@@ -65,12 +65,14 @@ def run(ctx):
               if "err" not in c and len(c["ws"]) >= 2})
     return {"cases": cases, "bad": bad, "worker_errs": [], "coq_errs": coq_errs,
             "coverage": {"evaluations": len(cases), "distinct_nontrivial": nt,
-                         "rule": "weight vectors (dyadic, small integers, degenerate one-hot, partly zero = -inf, uniform, near-uniform) of 1-8 particles, "
+                         "rule": "weight vectors (dyadic, small integers, degenerate one-hot, partly zero = -inf, uniform, near-uniform, equal weights with a dead tail) of 1-8 particles, "
+                                 "log weights shifted by a common offset (0 ... -1000, +120), offsets at the ends of (0,1) (1-2^-24 ...), "
                                  "scripted offsets a/b in (0,1) (exact ties between a position and a cumulative weight skipped), number of draws equal to or "
                                  "different from the number of weights; resample() with both methods on vectorized traces with distinct leaves; "
                                  "non-trivial = distinct case with >=2 particles",
                          "histogram": {"kinds": Counter(c["kind"] for c in cases),
                                        "weights": Counter(c.get("wkind") for c in cases),
+                                       "log_weight_shift": Counter(str(c.get("shift")) for c in cases),
                                        "methods": Counter(c.get("method") for c in cases if c["kind"] == "res"),
                                        "errors": Counter(c.get("err", "")[:60] for c in cases if "err" in c)},
                          "samples": cases[:2] + [c for c in cases if c["kind"] == "res"][:1]}}
